@@ -352,6 +352,22 @@ func VerifStoreSyncMsg() {
 	m.install(env)
 	verifrt.Reach("mirror-built")
 
+	// param "prev" = 1: an EARLIER notification of the same stream has been stored through the
+	// same Datastore before the one under test (whatever the datastore remembers about what it
+	// has written already must not change what the next notification does to the mirror)
+	if verifrt.Param("prev", 0) == 1 {
+		pl := []*vLeaf{sc.leaves[0], sc.leaves[1]}
+		if u := verifrt.Choice("prev.upd", len(pl)+1); u > 0 {
+			l := pl[u-1]
+			v := l.newVal("prevval")
+			psem := semaphore.NewWeighted(1)
+			_ = psem.Acquire(context.Background(), 1)
+			env.ds.storeSyncMsg(context.Background(), &target.SyncUpdate{Update: &sdcpb.Notification{Update: []*sdcpb.Update{{Path: l.path(), Value: l.tv(v)}}}}, psem)
+			m.apply(&v13Msg{kind: v13Update, leaf: l, val: v})
+			verifrt.Reach("previous-notification-stored")
+		}
+	}
+
 	var msgs []*v13Msg
 	notif := &sdcpb.Notification{}
 	dels := v13Deletable(sc)
